@@ -142,8 +142,13 @@ def real_core(job):
             outs.append(res)
         elif kind == "union":
             members = [P.annotation(m) for m in op["members"]]
-            res = {"union": enc.run_real(lambda: typelib.unmarshal(ann, v), P),
-                   "members": [enc.run_real(lambda m=m: typelib.unmarshal(m, v), P) for m in members],
+
+            def fresh():
+                # every call gets an input of its own: what a member does to its input may not reach the next call
+                return enc.to_py(op["val"], P)
+            res = {"union": enc.run_real(lambda: typelib.unmarshal(ann, fresh()), P),
+                   "members": [enc.run_real(lambda m=m: typelib.unmarshal(m, fresh()), P) for m in members],
+                   # (the marshal side keeps ONE object: str(memoryview) shows its address, two objects never marshal alike)
                    "munion": enc.run_real(lambda: typelib.marshal(v, t=ann), P),
                    "mmembers": [enc.run_real(lambda m=m: typelib.marshal(v, t=m), P) for m in members]}
             outs.append(res)
